@@ -277,9 +277,10 @@ def new_operator(domain, act, args, objects):
                     problem_objects=objects)
 
 
-def observe_applicable(domain, act, args, objects, state):
+def observe_applicable(domain, act, args, objects, state, op=None):
     try:
-        op = new_operator(domain, act, args, objects)
+        if op is None:
+            op = new_operator(domain, act, args, objects)
         return {"val": bool(op.is_applicable(state))}
     except Exception as e:  # noqa: BLE001 - any exception is "rejected"
         return {"exc": exc_name(e)}
@@ -330,11 +331,19 @@ def _lit(gp):
     return [bool(gp.is_positive), gp.name, list(gp.grounded_objects), [t.name for t in gp.signature.values()]]
 
 
-def observe_grounding(domain, act, args, objects):
+def observe_grounding(domain, act, args, objects, used_on=()):
+    """what an Operator reports for a call; with used_on, the report is read after the same object has answered
+    applicability queries and been applied to those states (the report is about the call, not about its use)"""
     from pddl_plus_parser.models import GroundedPredicate as GP, NumericalExpressionTree as NET
     try:
         op = new_operator(domain, act, args, objects)
         op.ground()
+        for st in used_on:
+            try:
+                op.is_applicable(st)
+                op.apply(st, allow_inapplicable_actions=True)
+            except Exception:  # noqa: BLE001  (what the transition does is judged elsewhere)
+                pass
         lits, nums = [], []
         for _, cond in op.grounded_preconditions:
             if isinstance(cond, GP):
